@@ -1,36 +1,59 @@
-(** C04 -- answers are those of depth-first, left-to-right SLD resolution.
-    Property theorems only (closed by [exact]); see DESIGN.md section 5 C04
-    for the full statement and for what is still missing. *)
+(** C04 -- throw/1 unwinds to the innermost still-executing catch/3.
+    Property theorems only, over the machine model M (Model/Machine.v). *)
 From Coq Require Import ZArith Bool List String.
 From PV Require Import Model.Term Model.Unify Model.Clause Model.Machine Proofs.Promise Proofs.Trampoline.
 Import ListNotations.
 Open Scope Z_scope.
 
-(** Alternatives are discarded only by a cut, and a cut whose parent is on the
-    stack discards exactly the frames above and including that parent. *)
-Theorem C04_pop_until_found :
-  forall c above p below, stands_for c p = true -> forallb (fun q => negb (stands_for c q)) above = true ->
-    pop_until c (above ++ p :: below) = below.
-Proof. exact pop_until_found. Qed.
-Print Assumptions C04_pop_until_found.
-
-Theorem C04_pop_until_suffix : forall c s, exists pre, s = pre ++ pop_until c s.
-Proof. exact pop_until_suffix. Qed.
-Print Assumptions C04_pop_until_suffix.
-
-(** The trampoline (Promise.Force with its explicit stack, child, popUntil and
-    recover) computes the compositional depth-first semantics [Run]: the outcome
-    of the top promise -- its alternatives left to right, the first success
-    wins, a cut prunes to its parent, an error unwinds to the innermost frame
-    whose handler accepts it -- resumed on the frames below.  For every stack,
-    every state, every program and every amount of fuel that suffices. *)
 Theorem C04_force_is_depth_first :
   forall fuel stack st r st', force fuel stack st = (r, st') -> r <> FOutOfFuel -> Run stack st r st'.
 Proof. exact (fun fuel => proj1 (force_sound fuel)). Qed.
 Print Assumptions C04_force_is_depth_first.
 
-(** non-vacuity: a concrete run of the machine that is not out of fuel *)
-Example C04_run_example :
-  exists r st', force 50 [mkP 7 [ThUnify (Var 0) (Int 1) KTop empty_env] false None None None false None None]
-                      (init_state [] 100 [Var 0] 5 None) = (r, st') /\ r = FFalse /\ s_answers st' = [[Int 1]].
-Proof. eexists _, _. split; [vm_compute; reflexivity | split; reflexivity]. Qed.
+(** An error raised while the frames [above ++ p :: below] are on the stack goes
+    to the innermost frame [p] whose handler accepts it (the catcher unifies with
+    the ball in the env captured when catch/3 was called: [handles]); the frames
+    above it are discarded, the frames below it are untouched, and Recovery is
+    called in place of the catch/3 goal, with the continuation of that call. *)
+Theorem C04_recover_innermost :
+  forall e above xs p below st recovery k env' f q st1 r st2,
+    e <> EFuel ->
+    (forall pre q0 post, above = pre ++ q0 :: post ->
+       p_exited q0 <> None \/ handles q0 e (fold_left (fun acc x => pass x acc) pre xs) = None) ->
+    p_exited p = None ->
+    handles p e (fold_left (fun acc x => pass x acc) above xs) = Some (recovery, k, env') ->
+    call_goal f recovery k env' st = (q, st1) ->
+    Run (q :: below) st1 r st2 ->
+    Recover e xs (above ++ p :: below) st r st2.
+Proof. exact recover_innermost. Qed.
+Print Assumptions C04_recover_innermost.
+
+(** A catch/3 whose goal has exited does not intercept errors raised by later
+    goals: once the error has passed the marker left by the exit, the frame's
+    handler is never consulted, whatever its catcher. *)
+Theorem C04_exited_catch_inactive :
+  forall p e xs, In (p_id p) xs -> handles p e xs = None.
+Proof. exact exited_catch_inactive. Qed.
+Print Assumptions C04_exited_catch_inactive.
+
+(** If no frame handles it, the run ends with an error carrying the ball. *)
+Theorem C04_uncaught_reaches_caller :
+  forall e xs stack st,
+    e <> EFuel ->
+    (forall pre q0 post, stack = pre ++ q0 :: post ->
+       p_exited q0 <> None \/ handles q0 e (fold_left (fun acc x => pass x acc) pre xs) = None) ->
+    Recover e xs stack st (FError e) st.
+Proof. exact uncaught_reaches_caller. Qed.
+Print Assumptions C04_uncaught_reaches_caller.
+
+(** non-vacuity (F1, repaired): catch(true,_,X=caught), throw(x) ends with the
+    uncaught ball x in M, and a throw inside the goal is caught. *)
+From PV Require Import Model.Boot.
+Example C04_exited_catch_example :
+  snd (run 4000 bootstrap_db (Cmp "," [Cmp "catch" [Atom "true"; Var 1; Cmp "=" [Var 0; Atom "caught"]]; Cmp "throw" [Atom "x"]]) [0] 10)
+  = EndErr (EBall (Atom "x")).
+Proof. vm_compute. reflexivity. Qed.
+Example C04_active_catch_example :
+  fst (run 4000 bootstrap_db (Cmp "catch" [Cmp "throw" [Atom "x"]; Var 1; Cmp "=" [Var 0; Atom "caught"]]) [0] 10)
+  = [[Atom "caught"]].
+Proof. vm_compute. reflexivity. Qed.
